@@ -421,10 +421,19 @@ def replay(case):
 PARAMS = {"quick": 900, "thorough": 30000}
 
 
+FUZZ_RUNS = {"quick": 0, "thorough": 6000}
+
+
 def shard(ctx):
     out = Out()
     hyp_search(out, ctx["known"], case_strategy(), evaluate, PARAMS[ctx["tier"]], ctx["seed"], max_rounds=8)
     sim.cleanup_sandbox()
+    if FUZZ_RUNS[ctx["tier"]]:
+        # coverage-guided stage: the same property driven by atheris / libFuzzer with cfdppy instrumented
+        from .. import fuzz
+
+        out.extra["coverage_guided_stage"] = "atheris fuzz_one_input over the C10 history strategy, empty corpus, one campaign per shard"
+        fuzz.campaign("C10", FUZZ_RUNS[ctx["tier"]], ctx["seed"], out)
     return out
 
 
